@@ -434,10 +434,17 @@ BuilderSound == Complete => HtmlEq(Explicit(toks), Build(toks, Frag))
 (* D => A: the design satisfies the property relation for every option set *)
 DesignRefines ==
   Complete => \A o \in OptSets : HtmlEq(Build(toks, Frag), Build(MachineOut(toks, o), Frag))
-(* GEN: complete documents leave TLC as JSON lines together with the design's predicted output *)
+(* GEN: complete documents leave TLC as JSON lines (compact token tuples [k, tag, hasAttr, bytes]),
+   Emit together with the design's predicted output per option set (used for DRIFT reporting) *)
+Enc(ts) == [i \in 1..Len(ts) |-> <<ts[i].k, ts[i].t, IF ts[i].h THEN 1 ELSE 0, ts[i].x>>]
+B01(b) == IF b THEN 1 ELSE 0
 OptSeq == SetToSeq(OptSets)
 Emit == Complete =>
-  PrintT(<<"GEN", ToJson([toks |-> toks, outs |-> [i \in 1..Len(OptSeq) |-> [o |-> OptSeq[i], out |-> MachineOut(toks, OptSeq[i])]]])>>)
+  PrintT(<<"GEN", ToJson([t |-> Enc(toks),
+                          o |-> [i \in 1..Len(OptSeq) |->
+                                   [f |-> <<B01(OptSeq[i].ket), B01(OptSeq[i].kws), B01(OptSeq[i].kdoc)>>,
+                                    o |-> Enc(MachineOut(toks, OptSeq[i]))]]])>>)
+EmitToks == Complete => PrintT(<<"GEN", ToJson([t |-> Enc(toks), o |-> <<>>])>>)
 
 AllOpts == [ket : BOOLEAN, kws : BOOLEAN, kdoc : BOOLEAN]
 Opts4 == {[ket |-> FALSE, kws |-> FALSE, kdoc |-> FALSE], [ket |-> TRUE, kws |-> FALSE, kdoc |-> FALSE],
@@ -451,5 +458,7 @@ VocabFrag == {"div", "p", "ul", "li", "table", "tbody", "tr", "td", "colgroup", 
               "noscript", "template", "ruby", "rt", "dl", "dt", "dd"}
 VocabSmall == {"div", "p", "ul", "li", "span", "a", "img", "select", "option", "optgroup", "script", "my-el", "pre",
                "table", "tbody", "tr", "td", "template", "noscript", "button"}
+VocabQuick == {"div", "p", "ul", "li", "span", "a", "img", "select", "option", "optgroup", "script", "my-el", "pre",
+               "table", "tbody", "tr", "td", "template", "noscript", "button", "ruby", "rt", "textarea"}
 VocabDoc == {"html", "head", "body", "title", "meta", "style", "script", "div", "p", "span", "ul", "li", "a", "img"}
 =============================================================================
